@@ -199,4 +199,22 @@ theorem slotsOf_sizes : ∀ (l : List (Var × Int)) (b : Int),
       subst this
       simp [assignLocals, slotsOf, ih]
 
+theorem assignParams_length : ∀ (ps : List Var) (top : Int), (assignParams top ps).1.length = ps.length := by
+  intro ps
+  induction ps with
+  | nil => intro top; simp [assignParams]
+  | cons v ps ih => intro top; cases h : v.byStack <;> simp [assignParams, h, ih]
+
+theorem loopInput_sizes (body params : List Var) :
+    (loopInput body params).map (·.1.size) = (body ++ params).map (·.size) := by
+  unfold loopInput
+  rw [List.map_append, List.map_append, List.map_map]
+  congr 1
+  have : (params.zip (assignParams FRAME_TOP0 params).1).map (·.1) = params :=
+    List.map_fst_zip (by rw [assignParams_length]; exact Nat.le_refl _)
+  calc List.map (fun x => x.fst.size) (params.zip (assignParams FRAME_TOP0 params).fst)
+      = List.map (fun v : Var => v.size) (List.map (fun x => x.fst) (params.zip (assignParams FRAME_TOP0 params).fst)) := by
+        rw [List.map_map]; rfl
+    _ = _ := by rw [this]
+
 end ChibiVerif.Frame
